@@ -7,6 +7,7 @@ Provides handler registration, message deduplication, and DLQ management logic.
 from __future__ import annotations
 
 import logging
+import threading
 from typing import TYPE_CHECKING, Any, cast
 
 from stabilize.queue.dedup import get_deduplicator
@@ -22,6 +23,10 @@ if TYPE_CHECKING:
     from stabilize.tasks.registry import TaskRegistry
 
 logger = logging.getLogger(__name__)
+
+# Only one worker thread rotates the shared dedup bloom filter at a time
+# (see DeduplicationMixin._handle_message).
+_DEDUP_ROTATION_LOCK = threading.Lock()
 
 
 class _DiagnosticMarkerHandler(MessageHandler[Any]):
@@ -177,7 +182,9 @@ class QueueProcessorMixin:
             # re-execute on redelivery. The negative-cache fast path is
             # therefore opt-in via dedup_trust_negative_cache.
             trust_negative = getattr(self.config, "dedup_trust_negative_cache", False)
-            if dedup.maybe_seen(message_id) or not (trust_negative and dedup.authoritative):
+            # The negative and the authority are read atomically: another
+            # worker thread may be rotating the filter right now.
+            if not (trust_negative and dedup.is_definitely_new(message_id)):
                 if self._store is not None and self._store.is_message_processed(message_id):
                     logger.info(
                         "Skipping duplicate message %s (%s)",
@@ -186,15 +193,24 @@ class QueueProcessorMixin:
                     )
                     return
 
-            # Check if bloom filter needs rotation
-            if dedup.should_reset(threshold=0.7):
-                logger.info(
-                    "Bloom filter fill ratio %.2f exceeds threshold, resetting",
-                    dedup.fill_ratio,
-                )
-                dedup.reset()
-                # Restore the fast path if the store can enumerate processed IDs
-                self._hydrate_deduplicator()
+            # Check if bloom filter needs rotation. Rotation (reset + hydrate)
+            # must not overlap with another thread's rotation: a hydrate()
+            # that started before the other thread's reset() would grant
+            # authority to a filter whose bits were just cleared. Threads that
+            # find a rotation in progress simply skip it - the filter is not
+            # authoritative until that rotation finishes.
+            if dedup.should_reset(threshold=0.7) and _DEDUP_ROTATION_LOCK.acquire(blocking=False):
+                try:
+                    if dedup.should_reset(threshold=0.7):
+                        logger.info(
+                            "Bloom filter fill ratio %.2f exceeds threshold, resetting",
+                            dedup.fill_ratio,
+                        )
+                        dedup.reset()
+                        # Restore the fast path if the store can enumerate processed IDs
+                        self._hydrate_deduplicator()
+                finally:
+                    _DEDUP_ROTATION_LOCK.release()
 
         logger.debug("Handling %s (execution=%s)", get_message_type_name(message), execution_id or "N/A")
 
@@ -202,17 +218,22 @@ class QueueProcessorMixin:
 
         # Mark message as processed for deduplication
         if self.config.enable_deduplication and message_id is not None:
-            # Mark in bloom filter (fast, in-memory)
-            dedup = get_deduplicator()
-            dedup.mark_seen(message_id)
-
-            # Also mark in database for persistence
+            # Mark in database first (durable record), then in the bloom
+            # filter. The order matters when another worker thread rotates
+            # the filter concurrently: reset() followed by hydration from
+            # processed_messages must either see the durable row, or happen
+            # before mark_seen() - otherwise an authoritative filter would
+            # miss an ID whose processed record is durable.
             if self._store is not None:
                 self._store.mark_message_processed(
                     message_id=message_id,
                     handler_type=get_message_type_name(message),
                     execution_id=execution_id,
                 )
+
+            # Mark in bloom filter (fast, in-memory)
+            dedup = get_deduplicator()
+            dedup.mark_seen(message_id)
 
     def _hydrate_deduplicator(self) -> None:
         """Hydrate the bloom filter from the store's processed_messages.
